@@ -543,7 +543,7 @@ func (c *Ctx) classifyMapRange(mr mapRange) (string, string) {
 			})
 		}
 		if depends {
-			if why, okj := jget("mapRangeReturnJustified", mapRangeReturnJustified, regName.ReplaceAllString(mr.desc, "t")); okj {
+			if why, okj := jget("mapRangeReturnJustified", mapRangeReturnJustified, rangedField(mr.desc)); okj {
 				notes = append(notes, "early return: "+why)
 			} else {
 				problems = append(problems, "a return from inside the loop hands back a value computed from the element the iteration is at (or from what earlier elements left behind): with several qualifying elements the answer depends on the order @ "+c.InstrPos(rt))
@@ -1374,8 +1374,23 @@ func (c *Ctx) constAtSites(v ssa.Value) ssa.Value {
 // mapRangeReturnJustified: map ranges that return an element-dependent value from inside the body, with the reason
 // the answer does not depend on the order (uniqueness of the qualifying element, established elsewhere).
 var mapRangeReturnJustified = map[string]string{
-	"yang.build | range t.sRequired": "the table has one key per flavour of a statement type, and the only type with two flavours is module/submodule (the aliases table has that one pair): after the statement's own keyword is skipped at most one key is left, so there is no order to depend on; the inner loop runs over a slice in declaration order",
+	"range .sRequired": "the table has one key per flavour of a statement type, and the only type with two flavours is module/submodule (the aliases table has that one pair): after the statement's own keyword is skipped at most one key is left, so there is no order to depend on; the inner loop runs over a slice in declaration order",
 }
 
 // regName: an SSA register name inside a construct description (renumbered by any edit above it).
 var regName = regexp.MustCompile(`\bt[0-9]+\b`)
+
+// rangedField: the part of a map range's description that says what is ranged over, without the function it sits in
+// and without the variable it is reached from ("yang.build | range t32.sRequired" → "range .sRequired"): a reason that
+// is about the table holds wherever the loop over it is moved.
+func rangedField(desc string) string {
+	i := strings.Index(desc, "| range ")
+	if i < 0 {
+		return desc
+	}
+	rest := desc[i+len("| range "):]
+	if j := strings.LastIndex(rest, "."); j >= 0 {
+		return "range " + rest[j:]
+	}
+	return "range " + rest
+}
